@@ -1,3 +1,4 @@
+pub mod c01;
 pub mod c02;
 pub mod c03;
 pub mod c05;
@@ -16,6 +17,7 @@ use crate::runner::Prop;
 
 pub fn sweep_prop(id: &str) -> Option<Box<dyn Prop>> {
     Some(match id {
+        "C01" => Box::new(c01::C01::new()),
         "C02" => Box::new(c02::C02::new()),
         "C03" => Box::new(c03::C03::new()),
         "C04" => Box::new(c03::C04::new()),
